@@ -39,7 +39,11 @@ RULE = ("every mechanism class x every constructor parameter / attribute x catal
         "assignment before randomise; (epsilon, delta) and (lower, upper) pair grids; random full tuples; "
         "validation.check_epsilon_delta / check_bounds / clip_to_norm / Budget; BudgetAccountant ctor / check / spend / "
         "slack / remaining(k); 15 tools and 8 estimators x epsilon and bounds catalogue with a finite accountant and "
-        "mechanism interposition.  A case is non-trivial when the entry point refuses; distinct by (entry, stage, "
+        "mechanism interposition; every tool with axis=/keepdims (13 variants incl. multi-quantile) x 5 data layouts "
+        "with a 1-dimensional result x 5 accountants (infinite, with prior spends, finite, finite with room for exactly "
+        "two such queries, the default) with per-feature ARRAY bounds that are inverted only at feature(s) of index > 0 "
+        "(swept, then random: 2-6 features, 10 inversion sizes, 5 epsilons): refused, 0 mechanism invocations, ledger "
+        "unchanged.  A case is non-trivial when the entry point refuses; distinct by (entry, stage, "
         "parameter assignment)")
 
 M = dp.mechanisms
@@ -1110,6 +1114,150 @@ def check_entries(ctx):
             ctx.trace_ok()
 
 
+
+# ------------------------------------------------------------------------------------------------ per-feature bounds
+
+AXIS_TOOLS = ("mean", "var", "std", "sum", "nanmean", "nanvar", "nanstd", "nansum", "median", "quantile", "percentile",
+              "quantile[multi]", "percentile[multi]")
+# data layouts whose result is 1-dimensional (one cell per feature, each with its own (lower, upper) pair)
+AXIS_LAYOUTS = {"2d:axis=0": ((12, None), {"axis": 0}), "2d:axis=-2": ((12, None), {"axis": -2}),
+                "2d:axis=1": ((None, 6), {"axis": 1}), "3d:axis=(0,2)": ((4, None, 3), {"axis": (0, 2)}),
+                "3d:axis=(0,1)": ((3, 4, None), {"axis": (0, 1)})}
+AXIS_ACCOUNTANTS = ("infinite", "infinite+spent", "finite", "finite-exact", "default")
+INVERTED_PAIRS = [(5.0, -5.0), (1.0, 0.0), (0.9, 0.1), (1 + 1e-9, 1.0), (math.nextafter(0.5, INF), 0.5), (INF, -INF),
+                  (1e12 * (1 + 1e-9), 1e12), (5e-324, 0.0), (0.0, -5e-324), (-0.1, -0.9)]
+
+
+def axis_call(tool, layout, n_cells, lower, upper, eps, accountant):
+    shape, kw = AXIS_LAYOUTS[layout]
+    shape = tuple(n_cells if d is None else d for d in shape)
+    x = ((np.arange(int(np.prod(shape))) * 0.37) % 1.0).reshape(shape)
+    a = ()
+    name = tool.split("[")[0]
+    if name == "quantile":
+        a = ([0.25, 0.75],) if "[multi]" in tool else (0.5,)
+    elif name == "percentile":
+        a = ([10, 90],) if "[multi]" in tool else (50,)
+    return getattr(T, name)(x, *a, epsilon=eps, bounds=(np.array(lower, dtype=float), np.array(upper, dtype=float)),
+                            accountant=accountant, **kw)
+
+
+def make_axis_accountant(which, eps):
+    BA = dp.BudgetAccountant
+    if which == "infinite":
+        return BA()
+    if which == "infinite+spent":
+        return BA(spent_budget=[(0.5, 0.0), (0.25, 0.0)])
+    if which == "finite":
+        return BA(100.0, 0.0, spent_budget=[(0.5, 0.0)])
+    if which == "finite-exact":
+        return BA(2 * eps, 0.0)
+    return None                                                   # the default accountant (a fresh one is installed)
+
+
+def run_axis_case(d):
+    """-> (kind, n mechanism calls, first mechanism class, ledger before, ledger after)"""
+    BA = dp.BudgetAccountant
+    acc = make_axis_accountant(d["accountant"], d["epsilon"])
+    old_default = BA._default
+    BA._default = None
+    try:
+        watched = acc
+        if acc is None:
+            watched = BA()
+            watched.set_default()
+        before = acc_state(watched)
+        with seams.interpose() as calls:
+            kind, _ = call_kind(axis_call, d["tool"], d["layout"], d["n_cells"], d["lower"], d["upper"], d["epsilon"], acc)
+        stray = BA._default if (acc is not None and BA._default is not None and len(BA._default) > 0) else None
+        after = acc_state(watched)
+        if stray is not None:
+            after = after + (("a new default accountant was charged", tuple(stray.spent_budget)),)
+    finally:
+        BA._default = old_default
+    return kind, len(calls), (calls[0].cls if calls else None), before, after
+
+
+def axis_what(d):
+    return (f"{d['tool']}(X{d['layout']}, epsilon={d['epsilon']}, bounds=({d['lower']}, {d['upper']}), accountant="
+            f"<{d['accountant']}>) with {d['n_cells']} features, the invalid pair only at feature {d['bad_at']}")
+
+
+def judge_axis(ctx, d, must_refuse):
+    kind, n_calls, first, before, after = run_axis_case(d)
+    refused = kind in ("typeError", "valueError", "budgetError")
+    sig = f"C13:{d['tool']}:per-feature-bounds:{d['why']}"
+    data = dict(d, unit="tool-axis")
+    bad = False
+    if must_refuse and not refused:
+        ctx.violation(sig + ":accepted", f"{axis_what(d)} -> {kind}", data)
+        bad = True
+    if kind != "ok":
+        if repr(before) != repr(after):
+            ctx.violation(sig + ":spend-recorded", f"{axis_what(d)} raised {kind}, but the accountant went from "
+                          f"{before[:2]} to {after[:2] + after[5:]}", data)
+            bad = True
+        if n_calls:
+            ctx.violation(sig + ":mechanism-invoked", f"{axis_what(d)} raised {kind}, but {n_calls} mechanism call(s) "
+                          f"ran before the refusal ({first})", data)
+            bad = True
+    return kind, bad
+
+
+def check_axis_bounds(ctx):
+    """per-feature ARRAY bounds that are invalid only at a feature index > 0: the whole query must be refused before any
+    earlier feature is computed or charged (0 mechanism invocations, ledger unchanged)"""
+    r = ctx.fork("axis-bounds")
+    cases = []
+
+    def case(tool, layout, n_cells, bad_at, pair, accountant, eps, why="lower-above-upper"):
+        lower = [round(0.05 * i, 3) for i in range(n_cells)]
+        upper = [1.0 + 0.5 * i for i in range(n_cells)]
+        for j in ([bad_at] if isinstance(bad_at, int) else bad_at):
+            lower[j], upper[j] = pair
+        return {"tool": tool, "layout": layout, "n_cells": n_cells, "bad_at": bad_at, "lower": lower, "upper": upper,
+                "accountant": accountant, "epsilon": eps, "why": why}
+    # deterministic sweep: every tool x every layout x every accountant, the bad pair in the last feature
+    for ti, tool in enumerate(AXIS_TOOLS):
+        for li, layout in enumerate(AXIS_LAYOUTS):
+            for ai, which in enumerate(AXIS_ACCOUNTANTS):
+                n_cells = 2 + (ti + li + ai) % 4
+                cases.append(case(tool, layout, n_cells, n_cells - 1, INVERTED_PAIRS[(ti + li + ai) % len(INVERTED_PAIRS)],
+                                  which, 1.0))
+    for _ in range(ctx.budget(300, 3000)):
+        n_cells = r.randint(2, 6)
+        bad = r.randint(1, n_cells - 1)
+        if n_cells > 2 and r.chance(0.25):
+            bad = sorted(set([bad, r.randint(1, n_cells - 1)]))
+            bad = bad if len(bad) > 1 else bad[0]
+        cases.append(case(r.choice(AXIS_TOOLS), r.choice(list(AXIS_LAYOUTS)), n_cells, bad, r.choice(INVERTED_PAIRS),
+                          r.choice(AXIS_ACCOUNTANTS), r.choice([1.0, 0.5, 3, 0.1, 1e-3])))
+    n_bad = 0
+    for d in cases:
+        kind, bad = judge_axis(ctx, d, must_refuse=True)
+        ctx.case(("axis-bounds", d["tool"], d["layout"], d["n_cells"], str(d["bad_at"]), enc(d["lower"][-1]), d["accountant"]))
+        n_bad += bad
+        if not bad:
+            ctx.trace_ok()
+    ctx.count("per_feature_bounds_cases", len(cases))
+    # controls: the same calls with valid bounds are accepted and charge exactly epsilon in total (the cases above are
+    # refused because of the bad pair, not because of the layout)
+    for ti, tool in enumerate(AXIS_TOOLS):
+        for li, layout in enumerate(AXIS_LAYOUTS):
+            d = case(tool, layout, 3, [], (0, 1), AXIS_ACCOUNTANTS[(ti + li) % 4], 1.0, why="valid")
+            kind, n_calls, _, before, after = run_axis_case(d)
+            if kind != "ok" or n_calls == 0 or abs((after[2] - before[2]) - 1.0) > 1e-9:
+                ctx.disagree("entry.axis-bounds.control", d, "ok, charged 1.0", f"{kind}, {n_calls} calls, {before[:3]} -> {after[:3]}")
+    # report-only: a NaN entry (not an inversion: `lower > upper` is False) in a later feature
+    obs = {}
+    for tool in AXIS_TOOLS:
+        d = case(tool, "2d:axis=0", 4, 2, (NAN, 1.0), "infinite", 1.0, why="nan")
+        kind, n_calls, _, before, after = run_axis_case(d)
+        obs.setdefault(f"{kind}, {n_calls} mechanism call(s), {after[0] - before[0]} spend(s) recorded", []).append(tool)
+    ctx.note("report-only: per-feature bounds with a NaN lower bound at feature 2 of 4 (axis=0): "
+             + "; ".join(f"{k}: {', '.join(v)}" for k, v in obs.items()))
+
+
 # ------------------------------------------------------------------------------------------------ report-only sweep
 
 def notes_sweep(ctx):
@@ -1149,7 +1297,7 @@ def generate(ctx):
 
 def check(ctx):
     with seams.fresh_default_accountant():
-        for sub in (check_mechanisms, check_impostors, check_validation, check_accountant, check_entries, notes_sweep):
+        for sub in (check_mechanisms, check_impostors, check_validation, check_accountant, check_entries, check_axis_bounds, notes_sweep):
             try:
                 sub(ctx)
             except leanio.LeanError:
@@ -1180,6 +1328,13 @@ def replay(ctx, data):
         run_rand(d["cls"], {d["param"]: v})
         kind = (run_ctor(d["cls"], {d["param"]: imp})[0] if d["stage"] == "ctor" else run_rand(d["cls"], {d["param"]: imp})[0])
         return kind not in ("typeError", "valueError")
+    if d.get("unit") == "tool-axis":
+        kind, n_calls, _, before, after = run_axis_case(d)
+        if sig.endswith("mechanism-invoked"):
+            return kind != "ok" and n_calls > 0
+        if sig.endswith("recorded"):
+            return kind != "ok" and repr(before) != repr(after)
+        return kind not in ("typeError", "valueError", "budgetError")
     if d.get("unit") in ("tool", "model"):
         calls = dict(tool_calls())
         calls.update(model_calls())
